@@ -265,6 +265,12 @@ def stepText (toks : List String) : Option String :=
   | ["aggname", n] => do let n ← n.toNat?; return optStr (aggName n) id
   | ["aggparse", s] => some (optStr (aggParse s) toString)
   | ["aggflag", s] => some (optStr (aggFlagParse s) toString)
+  | ["parsearchsflag", hex] => do
+    let s ← strOfHex hex
+    return optStr (parseArchiveInfoList s) fun as => hexOfStr (archsString as)
+  | ["xffflagbits", x] => do
+    let x ← natOfHex x
+    return if o.xffValid (UInt32.ofNat x) then s!"ok {hexOfNat 8 x}" else "err"
   | _ => none
 
 def step (st : St) (line : String) : St × String :=
